@@ -9,6 +9,7 @@
 //            t<x>  push(const T&) of an element whose copy constructor throws        o  try_pop
 //            x     try_pop into an element whose (move) assignment throws
 //       res: S / F for pushes, S:<v> / F for pops, W if the status was never set
+//   build<h> <d...>  /  bbatch<h> <d...> | <ops> ...   the queue is built from d through public bulk operation h (see make_queue) instead of set_state
 //   An element <x> is `<key>:<id>` or `<n>` (key = id = n).  The queue's comparator sees only the key
 //   (`compare(a, b) = a.key < b.key`): distinct ids with equal keys are ties of the comparator; outputs show ids.
 //   `heapify`/`reheap`/`batch` use tbb::concurrent_priority_queue<Elem> (std::less<Elem>);
@@ -94,8 +95,39 @@ template <class Q> static void set_state(Q& q, const Elems& d, size_t mark) {
     q.my_size.store(d.size());
 }
 
+// the queue built through a public bulk operation (the handler's invariant "heap = [0, mark), mark = size" must hold afterwards):
+//   0 set_state (white-box, as given)   1 iterator-range constructor   2 assign(first, last)   3 copy constructor of (1)
+//   4 move constructor of (1)   5 copy assignment of (1) into a used queue   6 move assignment of (1)   7 assign(initializer-list-sized copy) after pushes
+static int g_build_how = 0;
+template <class Q> static std::unique_ptr<Q> make_queue(const Elems& d, size_t mark) {
+    std::vector<Elem> v;
+    for (auto& x : d) v.emplace_back(x.first, x.second, false);
+    std::unique_ptr<Q> q;
+    switch (g_build_how) {
+    case 1: q.reset(new Q(v.begin(), v.end())); break;
+    case 2: q.reset(new Q()); q->assign(v.begin(), v.end()); break;
+    case 3: { Q a(v.begin(), v.end()); q.reset(new Q(a)); break; }
+    case 4: { Q a(v.begin(), v.end()); q.reset(new Q(std::move(a))); break; }
+    case 5: { Q a(v.begin(), v.end()); q.reset(new Q()); q->push(Elem(1, 999001, false)); *q = a; break; }
+    case 6: { Q a(v.begin(), v.end()); q.reset(new Q()); q->push(Elem(1, 999002, false)); *q = std::move(a); break; }
+    case 7: { q.reset(new Q()); q->push(Elem(5, 999003, false)); q->push(Elem(7, 999004, false)); q->assign(v.begin(), v.end()); break; }
+    default: q.reset(new Q()); set_state(*q, d, mark); break;
+    }
+    return q;
+}
+
 template <class Q> static std::string handle_line(std::vector<std::string>& ws, long fail_alloc = -1) {
         std::string out = "bad-op";
+        g_build_how = 0;
+        if (ws[0].size() == 6 && ws[0].compare(0, 5, "build") == 0 && ws[0][5] >= '1' && ws[0][5] <= '7') {
+            // build<h> <d...>  ->  "<mark> | <data...>" of the freshly built queue
+            g_build_how = ws[0][5] - '0';
+            Elems d; bool ok = true;
+            for (size_t i = 1; ok && i < ws.size(); ++i) { long k, x; ok = parse_elem(ws[i], k, x); d.push_back({k, x}); }
+            if (ok) { auto q = make_queue<Q>(d, 0); out = show(*q); }
+            return out;
+        }
+        if (ws[0].size() == 7 && ws[0].compare(0, 6, "bbatch") == 0 && ws[0][6] >= '1' && ws[0][6] <= '7') { g_build_how = ws[0][6] - '0'; ws[0] = "batch"; }
         if ((ws[0] == "heapify" || ws[0] == "reheap") && ws.size() >= 2) {
             long m; Elems d; bool ok = parse_nat(ws[1], m);
             for (size_t i = 2; ok && i < ws.size(); ++i) { long k, x; ok = parse_elem(ws[i], k, x); d.push_back({k, x}); }
@@ -129,7 +161,8 @@ template <class Q> static std::string handle_line(std::vector<std::string>& ws, 
                 batches.back().push_back(std::move(r));
             }
             if (ok) {
-                Q q; set_state(q, d, d.size());
+                std::unique_ptr<Q> qp = make_queue<Q>(d, d.size());
+                Q& q = *qp;
                 if (fail_alloc >= 0) q.data.shrink_to_fit();      // capacity == size: the growth policy decides which push reallocates
                 out.clear();
                 for (size_t b = 0; b < batches.size(); ++b) {
